@@ -954,6 +954,16 @@ func (e *Exec) nextOp(x *ssa.Next, it *mapIter) Value {
 				it.pos++
 				return TupleV{e.tf.tt, e.tf.Const(64, uint64(i)), e.tf.ZExt(b0, 32)}
 			}
+			// a symbolic byte >= 0x80: let the real decoder (unicode/utf8.DecodeRuneInString, interpreted like
+			// any other code, forking on its branches) produce the rune and its width
+			if up := e.prog.ImportedPackage("unicode/utf8"); up != nil && up.Func("DecodeRuneInString") != nil {
+				sub := &StrV{B: s.B[it.pos:]}
+				res := e.call(up.Func("DecodeRuneInString"), []Value{sub}).(TupleV)
+				sz := int(e.concretise(res[1].(*Term)))
+				i := it.pos
+				it.pos += sz
+				return TupleV{e.tf.tt, e.tf.Const(64, uint64(i)), res[0]}
+			}
 			e.unsupported("range over string with symbolic non-ASCII byte")
 		}
 		var buf []byte
